@@ -155,6 +155,18 @@ theorem cmdline_sets_exactly_own (as : List Bytes) (hne : as ≠ []) (hc : ∀ a
   · simp at h
   · exact handleFrom_feat env _ rfl _ c h i hi
 
+/-- **the command line changes nothing else**: everything the backend's HandleOptions leaves behind except the
+process-wide naming-style flags (features, naming style, initialisms switch, package prefix, template, import
+replacements) is exactly what HandleOptions gives for the written list plus what checkOptions appended — the scratch
+run of checkOptions cannot leak into it. -/
+theorem cmdline_outcome_is_handle (as : List Bytes) (hne : as ≠ []) (hc : ∀ a ∈ as, (44 : Nat) ∉ a) :
+    (cmdline env cmdEnv (joinComma as)).map Cfg.core =
+      if (handle env as).isNone then none else (handle env (as ++ appended as)).map Cfg.core := by
+  rw [cmdline_transparent as hne hc]
+  split
+  · rfl
+  · exact handleFrom_core env { init env with styleFlags := (probe env as).styleFlags } (init env) rfl (as ++ appended as)
+
 /-- nothing is appended unless the list itself switches nested structs on (`enable_nested_struct=false` included) -/
 theorem cmdline_adds_nothing_unless_nested (as : List Bytes) (h : feat (probe env as) cmdEnv.iNested = false) :
     appended as = [] := by simp [appended, h]
